@@ -76,11 +76,11 @@ TOL_FIXED = 1e-2
 
 def plan(tier, seed):
     geom, fixed = [], []
-    reps = 2 if tier == "quick" else 60
+    reps = 2 if tier == "quick" else 50
     for rep in range(reps):
         for shp, ang, pad in itertools.product(SHAPES, ANGLES, PADS):
             geom.append({"kind": "geom", "shape": shp, "angle": ang, "pad": pad, "reused": (len(geom) + rep) % 2 == 1})
-    reps = 3 if tier == "quick" else 60
+    reps = 3 if tier == "quick" else 50
     k = 0
     for rep in range(reps):
         for up, K, ang in itertools.product(UPS, [1, 2, 3, 4], ANGLES[:5]):
